@@ -279,3 +279,47 @@ V("twin-validate-slots-listcomp", "C17", "pyteal/ir/tealblock.py", "            
 V("twin-has-return-if-explicit", "C04", "pyteal/ast/seq.py", "        if len(self.args) == 0:\n            return False\n        return self.args[-1].has_return()", "        if not self.args:\n            return False\n        last = self.args[-1]\n        return last.has_return()", None, "quiet")
 V("twin-error-message", "C20", "pyteal/compiler/scratchslots.py", "\"Too many slots in use: {}, maximum is {}\".format(len(allSlots), NUM_SLOTS)", "\"Too many scratch slots are in use: {} (maximum {})\".format(len(allSlots), NUM_SLOTS)", None, "quiet")
 V("twin-decode-enumerate-start", "C09", "pyteal/ast/router.py", "            app_arg.decode(Txn.application_args[idx + 1])\n            for idx, app_arg in enumerate(app_arg_vals)", "            app_arg.decode(Txn.application_args[idx])\n            for idx, app_arg in enumerate(app_arg_vals, start=1)", None, "quiet")
+
+# ------------------------------------------------------------------------------- round 2: semantic graph / object-world rules
+V("normalize-ops-order", "C01", "pyteal/ir/tealblock.py", "                    block.ops = prev.ops + block.ops", "                    block.ops = block.ops + prev.ops", "R01.6e")
+V("normalize-merge-when-two-incoming", "C01", "pyteal/ir/tealblock.py", "            if len(block.incoming) == 1:\n                prev = block.incoming[0]", "            if len(block.incoming) >= 1:\n                prev = block.incoming[0]", "R01.6e")
+V("twin-normalize-local-name", "C01", "pyteal/ir/tealblock.py", "                prevOutgoing = prev.getOutgoing()\n                if len(prevOutgoing) == 1 and prevOutgoing[0] is block:", "                outs = prev.getOutgoing()\n                if len(outs) == 1 and outs[0] is block:", None, "quiet")
+V("flatten-bz-to-true", "C01", "pyteal/compiler/flatten.py", "                code.append(TealOp(root_expr, Op.bz, indexToLabel(falseIndex)))  # T2PT5", "                code.append(TealOp(root_expr, Op.bz, indexToLabel(trueIndex)))  # T2PT5", "R01.4e")
+V("flatten-skip-referer", "C20", "pyteal/compiler/flatten.py", "            references[falseIndex] += 1\n            add_if_new(falseIndex, i)\n            code.append(TealOp(root_expr, Op.b, indexToLabel(falseIndex)))  # T2PT5", "            references[falseIndex] += 1\n            code.append(TealOp(root_expr, Op.b, indexToLabel(falseIndex)))  # T2PT5", "R01.4e")
+V("twin-flatten-label-helper", "C01", "pyteal/compiler/flatten.py", "        if index not in labelRefs:\n            labelRefs[index] = LabelReference(\"l{}\".format(index))\n        return labelRefs[index]", "        ref = labelRefs.get(index)\n        if ref is None:\n            ref = LabelReference(\"l{}\".format(index))\n            labelRefs[index] = ref\n        return ref", None, "quiet")
+V("isterminal-last-op-only", "C18", "pyteal/ir/tealblock.py", "        for op in self.ops:\n            if op.getOp() in (Op.return_, Op.retsub, Op.err):\n                return True\n        return len(self.getOutgoing()) == 0", "        if self.ops and self.ops[-1].getOp() in (Op.return_, Op.retsub, Op.err):\n            return True\n        return len(self.getOutgoing()) == 0", "R01.13")
+V("twin-isterminal-any", "C01", "pyteal/ir/tealblock.py", "        for op in self.ops:\n            if op.getOp() in (Op.return_, Op.retsub, Op.err):\n                return True\n        return len(self.getOutgoing()) == 0", "        if any(op.getOp() in (Op.return_, Op.retsub, Op.err) for op in self.ops):\n            return True\n        return len(self.getOutgoing()) == 0", None, "quiet")
+V("suffix-immediate-range", "C07", "pyteal/ast/substring.py", "        if s < 2**8:\n            return Op.extract\n        else:\n            return Op.substring3\n\n    def __teal__(self, options: \"CompileOptions\"):\n        op = self.__get_op(options)", "        if s < 2**9:\n            return Op.extract\n        else:\n            return Op.substring3\n\n    def __teal__(self, options: \"CompileOptions\"):\n        op = self.__get_op(options)", "R04.4")
+V("substring-extract-length-off-by-one", "C07", "pyteal/ast/substring.py", "        if op == Op.extract:\n            length = end - start\n            return TealBlock.FromOp(", "        if op == Op.extract:\n            length = end - start + 1\n            return TealBlock.FromOp(", "R07.4")
+V("extract-to-substring3-args", "C07", "pyteal/ast/substring.py", "        elif op == Op.extract3:\n            return TealBlock.FromOp(\n                options,\n                TealOp(self, op),\n                self.stringArg,\n                self.startArg,\n                self.lenArg,\n            )", "        elif op == Op.extract3:\n            return TealBlock.FromOp(\n                options,\n                TealOp(self, Op.substring3),\n                self.stringArg,\n                self.startArg,\n                self.lenArg,\n            )", "R07.4")
+V("twin-substring-length-inline", "C07", "pyteal/ast/substring.py", "        elif op == Op.extract3:\n            length = end - start\n            return TealBlock.FromOp(\n                options,\n                TealOp(self, op),\n                self.stringArg,\n                self.startArg,\n                Int(length),\n            )", "        elif op == Op.extract3:\n            return TealBlock.FromOp(\n                options,\n                TealOp(self, op),\n                self.stringArg,\n                self.startArg,\n                Int(end - start),\n            )", None, "quiet")
+V("index-tuple-bool-run-not-reset", "C07", "pyteal/ast/abi/tuple.py", "                boolLength = _consecutive_bool_type_spec_num(value_types, i)\n                nextDynamicValueOffset += _bool_sequence_length(boolLength)\n                ignoreNext = boolLength - 1\n                continue", "                boolLength = _consecutive_bool_type_spec_num(value_types, i)\n                nextDynamicValueOffset += _bool_sequence_length(boolLength)\n                ignoreNext = boolLength\n                continue", "R07.1")
+V("graph-search-shared-visited", "C02", "pyteal/compiler/subroutines.py", "        if current in visited:\n            continue\n        visited.add(current)\n        if end == current:\n            return True", "        if current in visited:\n            continue\n        if end == current:\n            return True\n        visited.add(current)", None, "quiet")
+V("graph-search-no-start-cycle", "C02", "pyteal/compiler/subroutines.py", "    stack: List[Node] = list(graph[start])", "    stack: List[Node] = [n for n in graph[start] if n != start]", "R02.4")
+V("slot-classes-three-routines", "C02", "pyteal/compiler/scratchslots.py", "        global_slots |= slots & allOtherSlots\n        local_slots[subroutine] = slots - global_slots", "        global_slots ^= slots & allOtherSlots\n        local_slots[subroutine] = slots - global_slots", "R03.1b")
+V("deferred-bury-only-without-return", "C03", "pyteal/ast/subroutine.py", "            if not abi_output_kwargs and proto.num_returns > 0 and local_size > 0:", "            if not abi_output_kwargs and proto.num_returns > 0 and local_size > 1:", "R02.2")
+V("twin-deferred-bury-names", "C02", "pyteal/ast/subroutine.py", "            local_size = len(proto.mem_layout.local_stack_types)", "            local_size = len(list(proto.mem_layout.local_stack_types))", None, "quiet")
+V("framevar-store-untyped", "C05", "pyteal/ast/frame.py", "        return FrameBury(\n            value,\n            self.frame_index,\n            inferred_type=self.stack_type,\n        )", "        return FrameBury(\n            value,\n            self.frame_index,\n        )", "R05.7")
+V("scratchvar-store-untyped", "C05", "pyteal/ast/scratchvar.py", "        require_type(value, self.type)\n", "", "R05.7")
+V("framedig-load-untyped", "C05", "pyteal/ast/frame.py", "        return FrameDig(self.frame_index, inferred_type=self.stack_type)", "        return FrameDig(self.frame_index)", "R05.7")
+V("router-method-never-as-omitted", "C08", "pyteal/ast/router.py", "            if all(oc is None for oc in ocs.values()):", "            if not any(ocs.values()):", "R08.7")
+V("twin-router-method-generator", "C08", "pyteal/ast/router.py", "            if all(oc is None for oc in ocs.values()):", "            if not [oc for oc in ocs.values() if oc is not None]:", None, "quiet")
+V("setfield-dedupe", "C14", "pyteal/ast/itxn.py", "                return Seq(\n                    *[\n                        InnerTxnFieldExpr(field, cast(Expr, valueIter))\n                        for valueIter in value\n                    ]\n                )", "                return Seq(\n                    *[\n                        InnerTxnFieldExpr(field, cast(Expr, valueIter))\n                        for n_, valueIter in enumerate(value)\n                        if all(valueIter is not w for w in value[:n_])\n                    ]\n                )", "R14.3")
+V("setfields-reversed", "C14", "pyteal/ast/itxn.py", "        fieldsToSet = [cls.SetField(field, value) for field, value in fields.items()]", "        fieldsToSet = [cls.SetField(field, value) for field, value in reversed(list(fields.items()))]", "R14.3")
+V("frame-file-prefix-strip", "C15", "pyteal/stack_frame.py", "                self._file = os.path.relpath(path) if self.rel_paths else path", "                self._file = (path[len(self.root()):].lstrip(os.sep) if path.startswith(self.root()) else os.path.relpath(path)) if self.rel_paths else path", "R15.6")
+V("twin-frame-file-relpath-start", "C15", "pyteal/stack_frame.py", "                self._file = os.path.relpath(path) if self.rel_paths else path", "                self._file = os.path.relpath(path, os.getcwd()) if self.rel_paths else path", None, "quiet")
+V("constants-reuse-op-object", "C15", "pyteal/compiler/constants.py", "                if index == 0:\n                    assembled.append(TealOp(op.expr, Op.intc_0, \"//\", *op.args))", "                if index == 0:\n                    assembled.append(TealOp(None, Op.intc_0, \"//\", *op.args))", "R12.1")
+V("wideratio-cancel-shared", "C16", "pyteal/ast/widemath.py", "        self.numeratorFactors = numeratorFactors\n        self.denominatorFactors = denominatorFactors", "        shared = [x for x in numeratorFactors if any(x is y for y in denominatorFactors)]\n        self.numeratorFactors = [x for x in numeratorFactors if not any(x is s for s in shared)] or numeratorFactors\n        self.denominatorFactors = [x for x in denominatorFactors if not any(x is s for s in shared)] or denominatorFactors", "R16.2")
+V("twin-wideratio-copy-lists", "C16", "pyteal/ast/widemath.py", "        self.numeratorFactors = numeratorFactors\n        self.denominatorFactors = denominatorFactors", "        self.numeratorFactors = list(numeratorFactors)\n        self.denominatorFactors = list(denominatorFactors)", None, "quiet")
+V("validate-slots-count-memo", "C17", "pyteal/ir/tealblock.py", "                visitedKey = (id(block), *sortedSlots)", "                visitedKey = (id(block), len(sortedSlots))", "R17.1")
+V("uint-set-any-uint", "C19", "pyteal/ast/abi/uint.py", "        if isinstance(value, BaseType) and not (\n            isinstance(value.type_spec(), UintTypeSpec)\n            and self.type_spec().bit_size()\n            == cast(UintTypeSpec, value.type_spec()).bit_size()\n        ):", "        if isinstance(value, BaseType) and not (\n            isinstance(value.type_spec(), UintTypeSpec)\n        ):", "R19.3")
+V("twin-uint-set-size-names", "C19", "pyteal/ast/abi/uint.py", "        if isinstance(value, BaseType) and not (\n            isinstance(value.type_spec(), UintTypeSpec)\n            and self.type_spec().bit_size()\n            == cast(UintTypeSpec, value.type_spec()).bit_size()\n        ):", "        mine = self.type_spec().bit_size()\n        if isinstance(value, BaseType) and not (\n            isinstance(value.type_spec(), UintTypeSpec)\n            and mine == cast(UintTypeSpec, value.type_spec()).bit_size()\n        ):", None, "quiet")
+V("valid-base64-match", "C13", "pyteal/types.py", "    if pattern.fullmatch(s) is None:\n        raise TealInputError(\"{} is not a valid RFC 4648 base 64 string\".format(s))", "    if pattern.match(s) is None:\n        raise TealInputError(\"{} is not a valid RFC 4648 base 64 string\".format(s))", "R13.2")
+V("twin-valid-base64-hoisted", "C13", "pyteal/types.py", "def valid_base64(s: str):\n    \"\"\"check if s is a valid base64 encoding string\"\"\"\n    pattern = re.compile(\n        r\"^(?:[A-Za-z0-9+/]{4})*(?:[A-Za-z0-9+/]{2}==|[A-Za-z0-9+/]{3}=)?$\"\n    )\n", "_B64_PATTERN = re.compile(\n    r\"^(?:[A-Za-z0-9+/]{4})*(?:[A-Za-z0-9+/]{2}==|[A-Za-z0-9+/]{3}=)?$\"\n)\n\n\ndef valid_base64(s: str):\n    \"\"\"check if s is a valid base64 encoding string\"\"\"\n    pattern = _B64_PATTERN\n", None, "quiet")
+V("reference-type-byte-length", "C09", "pyteal/ast/abi/reference_type.py", "    def byte_length_static(self) -> int:\n        return 1", "    def byte_length_static(self) -> int:\n        return self.bit_size()", "R06.1")
+V("method-spec-cached", "C09", "pyteal/ast/subroutine.py", "        return sdk_abi.Method.undictify(spec)", "        self._spec_cache = getattr(self, \"_spec_cache\", None) or sdk_abi.Method.undictify(spec)\n        return self._spec_cache", "R09.5")
+V("invoke-check-memo", "C19", "pyteal/ast/subroutine.py", "                if not type_spec_is_assignable_to(arg.type_spec(), arg_type):\n                    raise TealInputError(\n                        f\"supplied argument {arg} at index {i} \"", "                if (i, type(arg)) in self.__dict__.setdefault(\"_seen\", set()):\n                    continue\n                self._seen.add((i, type(arg)))\n                if not type_spec_is_assignable_to(arg.type_spec(), arg_type):\n                    raise TealInputError(\n                        f\"supplied argument {arg} at index {i} \"", "R19.2")
+V("probe-handler-narrowed", "C02", "pyteal/ast/abi/type.py", "            declaration = self.computation.subroutine.get_declaration_by_option(False)\n        except Exception:\n            pass", "            declaration = self.computation.subroutine.get_declaration_by_option(False)\n        except TealInputError:\n            pass", "R02.6")
+V("allocator-limit-counts-auto-only", "C04", "pyteal/compiler/scratchslots.py", "    if len(allSlots) > NUM_SLOTS:", "    if len(allSlots) - len(slotIds) > NUM_SLOTS:", "R10.1")
+V("itxn-extra-fields-set-order", "C11", "pyteal/ast/itxn.py", "            InnerTxnBuilder.SetFields({} if extra_fields is None else extra_fields),", "            InnerTxnBuilder.SetFields({} if extra_fields is None else {k: extra_fields[k] for k in extra_fields.keys() - {TxnField.type_enum}}),", "R11.4")
+V("flatten-fresh-label-each-call", "C04", "pyteal/compiler/flatten.py", "        return labelRefs[index]", "        return LabelReference(\"l{}\".format(index))", "R01.4e")
